@@ -384,3 +384,46 @@ def run(ctx):
         w = gi.cfg.path_avoiding((gi.cfg.entry, -1), {gi.cfg.exit}, avoid)
         ctx.ob('ITER-RESET', 'psf_get_chunk_iterator:%s' % fld, w is None, gi.loc(rets[0]), 'iterator->%s is %s' % (fld, 'assigned (or the object cleared / fresh) on every path to the return' if w is None else
                'NOT assigned on a path to `return psf->iterator` (blocks %s): the value of the previous search survives - after an unfinished search by id a full iteration only visits chunks with that id' % w[:8]), None)
+
+    ctx.rule('WRITE-NOCAP', 'psf_bump_header_allocation refuses a request (returns non-zero without calling realloc) only on a branch whose condition requires psf->file.mode == SFM_READ: the 100 KiB cap '
+             'guards the parsers against hostile size fields; in the write modes what the header writers emit is the caller\'s own data (custom chunks, strings), and a refused allocation '
+             'silently drops a payload after its marker and size were written - the file cannot be opened again', floor=1)
+    ba = prog.fn('psf_bump_header_allocation', 'common.c')
+    n_wn = 0
+    for n in ba.walk():
+        if n['k'] != 'IfStmt' or not any(y['k'] == 'ReturnStmt' and y.get('kids') and ba.unwrap(ba.N[y['kids'][0]]).get('v') not in (0, None) for y in ba.walk(ba.N[n['then']])):
+            continue
+        if any(c.get('callee') == 'realloc' for c in ba.calls(root=ba.N[n['cond']])):
+            continue            # the out-of-memory exit
+        n_wn += 1
+        cs = ba.s(n['cond'])
+        conj = []
+        def _conj(x):
+            x = ba.unwrap(x)
+            if x.get('k') == 'BinaryOperator' and x.get('op') == '&&':
+                _conj(ba.N[x['kids'][0]]); _conj(ba.N[x['kids'][1]])
+            else:
+                conj.append(ba.s(x))
+        _conj(ba.N[n['cond']])
+        ok = any(c_.replace(' ', '') in ('(psf->file.mode==SFM_READ)', '(psf->file.mode==16)') for c_ in conj)
+        ctx.ob('WRITE-NOCAP', 'psf_bump_header_allocation@%d' % n['l'], ok, ba.loc(n), 'refusal under `%s`%s' % (cs[:70], '' if ok else
+               ': also taken in the write modes - a header that needs more than the cap (two custom chunks of 40000 bytes) is written with payloads missing'), None)
+    ctx.require(n_wn >= 1, 'psf_bump_header_allocation: no refusal branch found')
+
+    ctx.rule('ABS-OFFSET', 'in the header readers the absolute position of the audio data is never taken from the header cache index: no assignment to psf->dataoffset / datalength / dataend outside the '
+             'header writers has psf->header.indx on its right-hand side (after a skip too long to cache - a custom chunk larger than the cache in front of the data - the index is no longer the file '
+             'offset; psf_ftell is)', floor=20)
+    n_ao = 0
+    from engine.util import assigned_lvalues as _al13b
+    for f in sorted(prog.lib_fns(), key=lambda f: (f.file, f.line)):
+        if 'write' in f.name or f.file.endswith('common.c'):
+            continue
+        for lv, a, r in _al13b(f):
+            if lv not in ('psf->dataoffset', 'psf->datalength', 'psf->dataend') or r is None:
+                continue
+            n_ao += 1
+            bad = 'psf->header.indx' in f.s(r)
+            if bad or n_ao <= 400:
+                ctx.ob('ABS-OFFSET', '%s:%s@%d' % (f.name, lv, a['l']), not bad, f.loc(a), '%s = %s' % (lv, f.s(r)[:60]) + ('' if not bad else
+                       ': the cache index is used as a file offset - wrong as soon as a chunk in front of the data was too long to cache'), None)
+    ctx.require(n_ao >= 20, 'only %d geometry assignments found in the readers' % n_ao)
